@@ -8,7 +8,8 @@ def Good (D : Disk) (st : St) : Prop := ∀ E, AgreeOn st D E → Correct E st
 
 theorem good_empty (D : Disk) : Good D St.empty := fun E _ => correct_empty E
 
-theorem good_cleared (D : Disk) (st : St) : Good D st.cleared := fun E _ => correct_of_nil E _ rfl rfl rfl
+theorem good_cleared (D : Disk) (st : St) (h : st.lt = false) : Good D st.cleared :=
+  fun E _ => correct_of_nil E _ rfl rfl rfl h
 
 /-- on two disks, a file with the same name and the same mtime is the same file -/
 def SameByMtime (R D : Disk) : Prop :=
@@ -22,20 +23,22 @@ theorem get_mem {α} : ∀ (l : List (Mod × α)) (m : Mod) (v : α), get l m = 
     · subst hk; simp only [if_true, Option.some.injEq] at h; subst h; exact List.mem_cons_self
     · simp only [hk, if_false] at h; exact List.mem_cons_of_mem _ (get_mem r m v h)
 
-theorem clockOk_get {D : Disk} {c : Nat} (h : clockOk D c = true) {m : Mod} {f : File} (hg : get D m = some f) :
-    f.mtime ≤ c := by
+/-- every (file, mtime) pair of the disk has been recorded -/
+def SeenIn (D : Disk) (seen : List (Mod × Nat)) : Prop := ∀ m f, get D m = some f → (m, f.mtime) ∈ seen
+
+theorem seenIn_seenOf (D : Disk) : SeenIn D (seenOf D) := by
+  intro m f hg
   have := get_mem D m f hg
-  simp only [clockOk, List.all_eq_true, decide_eq_true_eq] at h
-  exact h _ this
+  simp only [seenOf, List.mem_map]
+  exact ⟨(m, f), this, rfl⟩
 
-theorem clockOk_mono {D : Disk} {c c' : Nat} (h : clockOk D c = true) (hc : c ≤ c') : clockOk D c' = true := by
-  simp only [clockOk, List.all_eq_true, decide_eq_true_eq] at h ⊢
-  exact fun p hp => Nat.le_trans (h p hp) hc
+theorem SeenIn.cons {D : Disk} {seen} (h : SeenIn D seen) (p : Mod × Nat) : SeenIn D (p :: seen) :=
+  fun m f hg => List.mem_cons_of_mem _ (h m f hg)
 
-/-- what holds of the world between any two operations of a history -/
-structure Inv (w : World) : Prop where
-  ref : ∃ R, Good R w.st ∧ SameByMtime R w.disk ∧ clockOk R w.clock = true
-  clock : clockOk w.disk w.clock = true
+/-- what holds of the world between any two operations of a history; `seen` = the (file, mtime) pairs so far -/
+structure Inv (w : World) (seen : List (Mod × Nat)) : Prop where
+  ref : ∃ R, Good R w.st ∧ SameByMtime R w.disk ∧ SeenIn R seen
+  cur : SeenIn w.disk seen
   abs : AbsDisk w.disk
 
 theorem absDisk_spec {D : Disk} (h : absDisk D = true) : AbsDisk D := by
@@ -44,42 +47,51 @@ theorem absDisk_spec {D : Disk} (h : absDisk D = true) : AbsDisk D := by
   simp only [absDisk, List.all_eq_true] at h
   exact h _ this
 
-theorem inv_init {D : Disk} {c : Nat} (h : clockOk D c = true) (ha : absDisk D = true) : Inv (World.init D c) :=
-  ⟨⟨D, good_empty D, fun m f f' h1 h2 _ => by
-    have h1' : get D m = some f := h1
-    rw [h1'] at h2; exact Option.some.inj h2, h⟩, h, absDisk_spec ha⟩
+theorem init_current (D : Disk) : World.init .current D = ⟨D, St.empty⟩ := rfl
 
-theorem inv_write {w : World} (hi : Inv w) (m : Mod) (src : Src) (hsrc : absSrc src = true) :
-    Inv { w with disk := (m, ⟨w.clock + 1, src⟩) :: w.disk, clock := w.clock + 1 } := by
+theorem inv_init {D : Disk} (ha : absDisk D = true) : Inv (World.init .current D) (seenOf D) := by
+  rw [init_current]
+  exact ⟨⟨D, good_empty D, fun m f f' h1 h2 _ => by
+    have h1' : get D m = some f := h1
+    rw [h1'] at h2; exact Option.some.inj h2, seenIn_seenOf D⟩, seenIn_seenOf D, absDisk_spec ha⟩
+
+theorem inv_write {w : World} {seen} (hi : Inv w seen) (m : Mod) (t : Nat) (src : Src)
+    (hsrc : absSrc src = true) (hfresh : (m, t) ∉ seen) :
+    Inv { w with disk := (m, ⟨t, src⟩) :: w.disk } ((m, t) :: seen) := by
   obtain ⟨⟨R, hg, hs, hR⟩, hD, hA⟩ := hi
-  refine ⟨⟨R, hg, ?_, clockOk_mono hR (Nat.le_succ _)⟩, ?_, ?_⟩
+  refine ⟨⟨R, hg, ?_, hR.cons _⟩, ?_, ?_⟩
   · intro k f f' h1 h2 hmt
     simp only [get_cons] at h1
     by_cases hk : m = k
     · subst hk
       simp only [if_true, Option.some.injEq] at h1
-      have := clockOk_get hR h2
+      have := hR m f' h2
       rw [← hmt, ← h1] at this
-      exact absurd this (by simp)
+      exact absurd this hfresh
     · simp only [hk, if_false] at h1; exact hs k f f' h1 h2 hmt
-  · have := clockOk_mono hD (Nat.le_succ w.clock)
-    simp only [clockOk, List.all_cons, Bool.and_eq_true, decide_eq_true_eq] at this ⊢
-    exact ⟨Nat.le_refl _, this⟩
+  · intro k f hk
+    simp only [get_cons] at hk
+    by_cases hmk : m = k
+    · simp only [hmk, if_true, Option.some.injEq] at hk; rw [← hk, hmk]; exact List.mem_cons_self
+    · simp only [hmk, if_false] at hk; exact List.mem_cons_of_mem _ (hD k f hk)
   · intro k f hk
     simp only [get_cons] at hk
     by_cases hmk : m = k
     · simp only [hmk, if_true, Option.some.injEq] at hk; rw [← hk]; exact hsrc
     · simp only [hmk, if_false] at hk; exact hA k f hk
 
-theorem anyChanged_false {D : Disk} {st : St} (h : anyChanged D st = false) {m : Mod} {c : Cached}
-    (hg : get st.mcache m = some c) : stat D m = some c.mtime := by
+theorem anyChanged_false {D : Disk} {st : St} (h : anyChanged D st = false) (hlt : st.lt = false) {m : Mod}
+    {c : Cached} (hg : get st.mcache m = some c) : stat D m = some c.mtime := by
   have hm := get_mem _ _ _ hg
   simp only [anyChanged, List.any_eq_false] at h
   have := h _ hm
-  simpa using this
+  simp only [hlt, changedB] at this
+  cases hs : stat D m with
+  | none => simp [hs] at this
+  | some t => simp [hs] at this; rw [this]
 
 theorem getModule_false {D : Disk} {st : St} {m : Mod} {s : St} (h : getModule D st m = (false, s))
-    (hch : anyChanged D st = false) : s = addMissing st m ∧ get D m = none := by
+    (hch : anyChanged D st = false) (hlt : st.lt = false) : s = addMissing st m ∧ get D m = none := by
   unfold getModule at h
   by_cases hctx : m ∈ st.ctx
   · simp [hctx] at h
@@ -87,7 +99,7 @@ theorem getModule_false {D : Disk} {st : St} {m : Mod} {s : St} (h : getModule D
     cases hg : get st.mcache m with
     | some c =>
       rw [hg] at h; dsimp only at h
-      rw [if_neg (by simp [anyChanged_false hch hg])] at h
+      rw [if_neg (by simp [anyChanged_false hch hlt hg, changedB, hlt])] at h
       simp at h
     | none =>
       rw [hg] at h; dsimp only at h
@@ -97,18 +109,18 @@ theorem getModule_false {D : Disk} {st : St} {m : Mod} {s : St} (h : getModule D
       | some f => rw [hd] at h; simp at h
 
 theorem appeared_false {D : Disk} : ∀ (l : List Mod) (st s : St), appeared D l st = (false, s) →
-    anyChanged D st = false →
+    anyChanged D st = false → st.lt = false →
     s.mcache = st.mcache ∧ s.ctx = st.ctx ∧ (∀ k, k ∈ l → get D k = none) ∧
     (∀ k, k ∈ st.missing → k ∈ s.missing) ∧ (∀ k, k ∈ s.missing → k ∈ st.missing ∨ k ∈ l) := by
   intro l
   induction l with
   | nil =>
-    intro st s h _
+    intro st s h _ _
     simp only [appeared, Prod.mk.injEq, true_and] at h
     subst h
     exact ⟨rfl, rfl, by simp, fun _ h => h, fun _ h => Or.inl h⟩
   | cons m rest ih =>
-    intro st s h hch
+    intro st s h hch hlt
     simp only [appeared] at h
     rcases hgm : getModule D { st with missing := st.missing.filter (· ≠ m) } m with ⟨b, st1⟩
     rw [hgm] at h
@@ -116,9 +128,9 @@ theorem appeared_false {D : Disk} : ∀ (l : List Mod) (st s : St), appeared D l
     | true => simp at h
     | false =>
       dsimp only at h
-      obtain ⟨hst1, hno⟩ := getModule_false hgm (by simpa [anyChanged] using hch)
+      obtain ⟨hst1, hno⟩ := getModule_false hgm (by simpa [anyChanged] using hch) hlt
       have hch1 : anyChanged D st1 = false := by rw [hst1]; simpa [anyChanged] using hch
-      obtain ⟨h1, h2, h3, h4, h5⟩ := ih st1 s h hch1
+      obtain ⟨h1, h2, h3, h4, h5⟩ := ih st1 s h hch1 (by rw [hst1]; simpa using hlt)
       refine ⟨by rw [h1, hst1]; simp, by rw [h2, hst1]; simp, ?_, ?_, ?_⟩
       · intro k hk
         rcases List.mem_cons.1 hk with rfl | hk
@@ -138,23 +150,48 @@ theorem appeared_false {D : Disk} : ∀ (l : List Mod) (st s : St), appeared D l
           · simp only [List.mem_filter] at h; exact Or.inl h.1
         · exact Or.inr (List.mem_cons_of_mem _ h)
 
+theorem getModule_lt (D : Disk) (st : St) (m : Mod) : (getModule D st m).2.lt = st.lt := by
+  unfold getModule
+  split
+  · rfl
+  · split
+    · split
+      · unfold load; split <;> simp
+      · rfl
+    · unfold load; split <;> simp
+
+theorem appeared_lt {D : Disk} : ∀ (l : List Mod) (st s : St) {b : Bool}, appeared D l st = (b, s) → s.lt = st.lt := by
+  intro l
+  induction l with
+  | nil => intro st s b h; simp only [appeared, Prod.mk.injEq] at h; rw [← h.2]
+  | cons m rest ih =>
+    intro st s b h
+    simp only [appeared] at h
+    have hl := getModule_lt D { st with missing := st.missing.filter (· ≠ m) } m
+    rcases hgm : getModule D { st with missing := st.missing.filter (· ≠ m) } m with ⟨b1, st1⟩
+    rw [hgm] at h hl
+    cases b1 with
+    | true => simp only [Prod.mk.injEq] at h; rw [← h.2]; exact hl
+    | false => dsimp only at h; rw [ih _ _ h]; exact hl
+
 theorem correct_ctx_nil {E : Disk} {st : St} (h : Correct E st) : Correct E { st with ctx := [] } :=
-  ⟨h.valid, h.miss, by simp, h.table, h.refs, h.modIn, h.tabAbs, h.refAbs⟩
+  ⟨h.valid, h.miss, by simp, h.table, h.refs, h.modIn, h.tabAbs, h.refAbs, h.mode⟩
 
 /-- entering `check_changes` makes the state good for the disk as it is now -/
 theorem checkChanges_good {R D : Disk} {st : St} (hg : Good R st) (hs : SameByMtime R D) :
     Good D (checkChanges .current D st) := by
+  have hlt : st.lt = false := (hg R (agreeOn_refl _ _)).mode
   simp only [checkChanges]
   cases hch : anyChanged D { st with ctx := [] } with
-  | true => simp only [if_true]; exact good_cleared D _
+  | true => simp only [if_true]; exact good_cleared D _ hlt
   | false =>
     simp only [Bool.false_eq_true, if_false]
     rcases hap : appeared D st.missing { st with ctx := [] } with ⟨b, s⟩
     cases b with
-    | true => exact good_cleared D _
+    | true => exact good_cleared D _ hlt
     | false =>
       dsimp only
-      obtain ⟨h1, h2, h3, h4, h5⟩ := appeared_false _ _ _ hap hch
+      obtain ⟨h1, h2, h3, h4, h5⟩ := appeared_false _ _ _ hap hch hlt
       have hcR : Correct R st := hg R (agreeOn_refl _ _)
       -- the reference disk and the present disk agree on the footprint
       have hRD : ∀ m, foot st m → get D m = get R m := by
@@ -164,7 +201,7 @@ theorem checkChanges_good {R D : Disk} {st : St} (hg : Good R st) (hs : SameByMt
           | none => simp [hgm] at hf
           | some c =>
             obtain ⟨f', hf', hmt⟩ := hcR.valid m c hgm
-            have hst := anyChanged_false hch (m := m) (c := c) hgm
+            have hst := anyChanged_false hch hlt (m := m) (c := c) hgm
             unfold stat at hst
             cases hd : get D m with
             | none => simp [hd] at hst
@@ -179,7 +216,11 @@ theorem checkChanges_good {R D : Disk} {st : St} (hg : Good R st) (hs : SameByMt
         · left; rw [h1]; exact hf
         · right; exact h4 m hf
       have hcE : Correct E st := hg E (fun m hf => by rw [hag m (hfoot m hf), hRD m hf])
-      refine ⟨?_, ?_, ?_, ?_, ?_, ?_, ?_, ?_⟩
+      have hslt : s.lt = false := by
+        have := (hg E (fun m hf => by rw [hag m (hfoot m hf), hRD m hf])).mode
+        -- `appeared` does not touch the knob
+        exact appeared_lt _ _ _ hap ▸ this
+      refine ⟨?_, ?_, ?_, ?_, ?_, ?_, ?_, ?_, hslt⟩
       · rw [h1]; exact hcE.valid
       · intro k hk
         rw [hag k (Or.inr hk)]
@@ -197,7 +238,7 @@ theorem fresh_eq (fuel : Nat) (D : Disk) (q : Query) :
       | .error _ => .recursion := by
   simp only [fresh, request, checkChanges, anyChanged, St.empty, List.any_nil, Bool.false_eq_true, if_false,
     appeared]
-  cases runQuery D fuel ⟨[], [], [], []⟩ q <;> rfl
+  cases runQuery D fuel ⟨[], [], [], [], false⟩ q <;> rfl
 
 /-- one request on a good-after-`check_changes` world: the new state is good for the disk, and the answer
     is the fresh project's unless one of the two ran into the recursion limit -/
@@ -222,46 +263,68 @@ theorem request_spec {R D : Disk} {st : St} (fuel : Nat) (q : Query) (hg : Good 
 theorem sameByMtime_refl (D : Disk) : SameByMtime D D :=
   fun m f f' h1 h2 _ => by rw [h1] at h2; exact Option.some.inj h2
 
-theorem inv_step {fuel : Nat} {w : World} (hi : Inv w) (op : Op) (hop : op.isAbs = true) :
-    Inv (step .current fuel w op).1 := by
-  cases op with
-  | write m src => exact inv_write hi m src hop
-  | touch m =>
-    simp only [step]
-    cases hg : get w.disk m with
-    | none => exact hi
-    | some f => exact inv_write hi m f.src (hi.abs m f hg)
-  | request q =>
-    obtain ⟨⟨R, hg, hs, hR⟩, hD, hA⟩ := hi
-    exact ⟨⟨w.disk, (request_spec fuel q hg hs hA).1, sameByMtime_refl _, hD⟩, hD, hA⟩
-
-theorem inv_exec {fuel : Nat} : ∀ (ops : List Op) {w : World}, Inv w → ops.all Op.isAbs = true →
-    Inv (exec .current fuel w ops)
-  | [], _, hi, _ => hi
-  | op :: ops, _, hi, h => by
-    simp only [List.all_cons, Bool.and_eq_true] at h
-    exact inv_exec ops (inv_step hi op h.1) h.2
+theorem inv_request {fuel : Nat} {w : World} {seen} (hi : Inv w seen) (q : Query) :
+    Inv (step .current fuel w (.request q)).1 seen := by
+  obtain ⟨⟨R, hg, hs, hR⟩, hD, hA⟩ := hi
+  exact ⟨⟨w.disk, (request_spec fuel q hg hs hA).1, sameByMtime_refl _, hD⟩, hD, hA⟩
 
 /-- every request of a history is answered like a fresh project on the disk of that moment -/
-theorem run_transparent {fuel : Nat} : ∀ (ops : List Op) {w : World}, Inv w → ops.all Op.isAbs = true →
+theorem run_transparent {fuel : Nat} : ∀ (ops : List Op) {w : World} {seen}, Inv w seen →
+    freshMtimes seen ops = true → ops.all Op.isAbs = true →
     ∀ r, r ∈ run .current fuel w ops → r.2.2 ≠ .recursion → fresh fuel r.1 r.2.1 ≠ .recursion →
       r.2.2 = fresh fuel r.1 r.2.1
-  | [], _, _, _, r, hr => by simp [run] at hr
-  | op :: ops, w, hi, hops, r, hr => by
+  | [], _, _, _, _, _, r, hr => by simp [run] at hr
+  | op :: ops, w, seen, hi, hfr, hops, r, hr => by
     simp only [List.all_cons, Bool.and_eq_true] at hops
-    have hi' := inv_step (fuel := fuel) hi op hops.1
     cases op with
-    | write m src => simp only [run, step] at hr; exact run_transparent ops hi' hops.2 r hr
-    | touch m =>
-      simp only [run, step] at hr hi'
+    | write m t src =>
+      simp only [freshMtimes, Bool.and_eq_true, Bool.not_eq_true', List.contains_eq_mem,
+        decide_eq_false_iff_not] at hfr
+      simp only [run, step] at hr
+      exact run_transparent ops (inv_write hi m t src hops.1 hfr.1) hfr.2 hops.2 r hr
+    | touch m t =>
+      simp only [freshMtimes, Bool.and_eq_true, Bool.not_eq_true', List.contains_eq_mem,
+        decide_eq_false_iff_not] at hfr
+      simp only [run, step] at hr
       cases hg : get w.disk m with
-      | none => rw [hg] at hr hi'; exact run_transparent ops hi' hops.2 r hr
-      | some f => rw [hg] at hr hi'; exact run_transparent ops hi' hops.2 r hr
+      | none =>
+        rw [hg] at hr
+        exact run_transparent ops ⟨by obtain ⟨R, h1, h2, h3⟩ := hi.ref; exact ⟨R, h1, h2, h3.cons _⟩,
+          hi.cur.cons _, hi.abs⟩ hfr.2 hops.2 r hr
+      | some f =>
+        rw [hg] at hr
+        exact run_transparent ops (inv_write hi m t f.src (hi.abs m f hg) hfr.1) hfr.2 hops.2 r hr
     | request q =>
-      simp only [run, step] at hr hi'
+      simp only [freshMtimes] at hfr
+      simp only [run, step] at hr
       rcases List.mem_cons.1 hr with rfl | hr
       · obtain ⟨⟨R, hg, hs, _⟩, _, hA⟩ := hi
         exact (request_spec fuel q hg hs hA).2
-      · exact run_transparent ops hi' hops.2 r hr
+      · exact run_transparent ops (inv_request (fuel := fuel) hi q) hfr hops.2 r hr
+
+/-- the invariant holds after any history with fresh mtimes and absolute imports -/
+theorem inv_exec {fuel : Nat} : ∀ (ops : List Op) {w : World} {seen}, Inv w seen →
+    freshMtimes seen ops = true → ops.all Op.isAbs = true →
+    ∃ seen', Inv (exec .current fuel w ops) seen'
+  | [], _, seen, hi, _, _ => ⟨seen, hi⟩
+  | op :: ops, w, seen, hi, hfr, hops => by
+    simp only [List.all_cons, Bool.and_eq_true] at hops
+    cases op with
+    | write m t src =>
+      simp only [freshMtimes, Bool.and_eq_true, Bool.not_eq_true', List.contains_eq_mem,
+        decide_eq_false_iff_not] at hfr
+      exact inv_exec ops (inv_write hi m t src hops.1 hfr.1) hfr.2 hops.2
+    | touch m t =>
+      simp only [freshMtimes, Bool.and_eq_true, Bool.not_eq_true', List.contains_eq_mem,
+        decide_eq_false_iff_not] at hfr
+      simp only [exec, step]
+      cases hg : get w.disk m with
+      | none =>
+        exact inv_exec ops ⟨by obtain ⟨R, h1, h2, h3⟩ := hi.ref; exact ⟨R, h1, h2, h3.cons _⟩,
+          hi.cur.cons _, hi.abs⟩ hfr.2 hops.2
+      | some f => exact inv_exec ops (inv_write hi m t f.src (hi.abs m f hg) hfr.1) hfr.2 hops.2
+    | request q =>
+      simp only [freshMtimes] at hfr
+      exact inv_exec ops (inv_request (fuel := fuel) hi q) hfr hops.2
 
 end SuppModel.Proj
